@@ -325,3 +325,159 @@ Proof.
   - cbn in H. intuition lia.
   - apply str_of_Z_chars in H as [H|H]; [lia|apply ascii_digit_range in H; lia].
 Qed.
+
+(* ---------------- the half-year switch and the year inference ---------------- *)
+(* the half year of the property: 365.2425 days / 2, in seconds (the `ls` convention) *)
+Definition half_year_spec : Z := 15778476.
+(* how far below it the implementation's constant may lie: one day minus the admitted clock
+   skew (1 h) minus the seconds lost by the minute format *)
+Definition half_lo : Z := half_year_spec - 82740.
+Definition DAY : Z := 86400.
+Definition HOUR : Z := 3600.
+
+Definition consts_ok (half two_years : Z) : bool :=
+  (half_lo <=? half) && (half <=? half_year_spec) && (half_year_spec <=? two_years).
+
+Lemma starts_with_feb29_HM t :
+  fields_ok t -> starts_with FEB29 (fmt_b_e_HM t) = (mo t =? 2) && (dy t =? 29).
+Proof.
+  intros (HM & HD & _). rewrite fmt_b_e_HM_shape. unfold hm_text.
+  destruct t as [Y Mo D h mn s]. cbn [mo dy hh mi] in *.
+  assert (HM' : 1 <= Mo < 1 + Z.of_nat 12) by (simpl; lia).
+  assert (HD' : 1 <= D < 1 + Z.of_nat 31) by (simpl; lia). clear HM HD.
+  range_cases HM'; range_cases HD'; vm_compute; reflexivity.
+Qed.
+
+Lemma make_datetime_ok y m d h mn :
+  1 <= y <= 9999 -> valid_date y m d = true -> make_datetime y m d h mn = Some (mkdt y m d h mn 0).
+Proof.
+  intros Hy V. unfold make_datetime. rewrite V.
+  destruct (1 <=? y) eqn:A; [|apply Z.leb_gt in A; lia].
+  destruct (y <=? 9999) eqn:B; [|apply Z.leb_gt in B; lia]. reflexivity.
+Qed.
+
+Lemma replace_year_ok d y :
+  1 <= y <= 9999 -> valid_date y (mo d) (dy d) = true ->
+  replace_year d y = Some (mkdt y (mo d) (dy d) (hh d) (mi d) (ss d)).
+Proof.
+  intros Hy V. unfold replace_year. rewrite V.
+  destruct (1 <=? y) eqn:A; [|apply Z.leb_gt in A; lia].
+  destruct (y <=? 9999) eqn:B; [|apply Z.leb_gt in B; lia]. reflexivity.
+Qed.
+
+Lemma recent_core half two tm tn :
+  valid_dt tm = true -> valid_dt tn = true ->
+  consts_ok half two = true ->
+  epoch_of_civil tm <= epoch_of_civil tn ->
+  epoch_of_civil tn - epoch_of_civil tm <= half_year_spec - DAY + HOUR - 1 ->
+  1000 <= yr tm -> yr tn <= 9999 ->
+  parse_ls_date_try half two (fmt_b_e_HM tm) tn = Some (minute_floor tm).
+Proof.
+  intros Vm Vn C Hle Hage HY HY'.
+  unfold consts_ok in C. apply andb_true_iff in C as [C C3]. apply andb_true_iff in C as [C1 C2].
+  apply Z.leb_le in C1, C2, C3. unfold half_lo, half_year_spec, DAY, HOUR in *.
+  pose proof (year_close tm tn Vm Vn Hle ltac:(lia)) as EY.
+  pose proof (valid_dt_fields tm Vm) as F.
+  pose proof (valid_dt_date tm Vm) as Vd.
+  destruct (valid_dt_time tm Vm) as (Hh & Hmi & Hs).
+  unfold parse_ls_date_try. rewrite (starts_with_feb29_HM tm F).
+  destruct tm as [Y Mo D h mn s]. destruct tn as [Y' Mo' D' h' mn' s'].
+  cbn [yr mo dy hh mi ss] in *. unfold minute_floor. cbn [yr mo dy hh mi ss].
+  destruct ((Mo =? 2) && (D =? 29)) eqn:FB.
+  - (* Feb 29 *)
+    apply andb_true_iff in FB as [E1 E2]. apply Z.eqb_eq in E1, E2. subst Mo D.
+    pose proof (valid_feb29_leap Y Vd) as LY.
+    assert (P : prev_leap 8 Y' = Y).
+    { destruct EY as [->| ->]; cbn [prev_leap].
+      - rewrite LY. reflexivity.
+      - rewrite (is_leap_consecutive Y LY). replace (Y + 1 - 1) with Y by lia. rewrite LY. reflexivity. }
+    rewrite P.
+    rewrite (strptime_fmt2_feb29 Y (mkdt Y 2 29 h mn s)) by (cbn [mo dy hh mi]; lia).
+    cbn [hh mi]. rewrite (make_datetime_ok Y 2 29 h mn) by (try lia; exact Vd).
+    unfold epoch_of_civil in *. cbn [yr mo dy hh mi ss] in *.
+    destruct (_ >? two) eqn:G; [apply Z.gtb_lt in G; lia|]. reflexivity.
+  - (* any other day *)
+    assert (N : Mo <> 2 \/ D <> 29).
+    { apply andb_false_iff in FB as [E|E]; apply Z.eqb_neq in E; tauto. }
+    rewrite (strptime_fmt1 (mkdt Y Mo D h mn s) F). cbn [mo dy hh mi].
+    rewrite (make_datetime_ok 1900 Mo D h mn) by (try lia; exact (valid_date_other_year Y 1900 Mo D Vd N)).
+    rewrite (replace_year_ok _ Y') by (cbn [mo dy]; try lia; exact (valid_date_other_year Y Y' Mo D Vd N)).
+    cbn [mo dy hh mi ss].
+    unfold epoch_of_civil in *. cbn [yr mo dy hh mi ss] in *.
+    destruct EY as [->| ->].
+    + destruct (_ >? half) eqn:G; [apply Z.gtb_lt in G; lia|].
+      destruct (_ <? - half) eqn:G2; [apply Z.ltb_lt in G2; lia|]. reflexivity.
+    + pose proof (dfc_next_year Y Mo D) as NY.
+      destruct (_ >? half) eqn:G; [apply Z.gtb_lt in G; lia|].
+      destruct (_ <? - half) eqn:G2; [|apply Z.ltb_ge in G2; lia].
+      rewrite replace_year_ok; cbn [mo dy hh mi ss]; try lia.
+      * replace (Y + 1 - 1) with Y by lia. reflexivity.
+      * replace (Y + 1 - 1) with Y by lia. exact Vd.
+Qed.
+
+(* the server's side *)
+Lemma build_recent half off mtime now :
+  half_lo <= half -> now - half_year_spec + DAY < mtime <= now ->
+  build_list_mtime half off mtime now = fmt_b_e_HM (civil_of_epoch (mtime + off)).
+Proof.
+  unfold half_lo, half_year_spec, DAY, build_list_mtime. intros H1 H2.
+  destruct (now - half <? mtime) eqn:A; [|apply Z.ltb_ge in A; lia].
+  destruct (mtime <=? now) eqn:B; [|apply Z.leb_gt in B; lia]. reflexivity.
+Qed.
+
+Lemma build_old_or_future half off mtime now :
+  half <= half_year_spec -> mtime <= now - half_year_spec \/ now < mtime ->
+  build_list_mtime half off mtime now = fmt_b_e_Y (civil_of_epoch (mtime + off)).
+Proof.
+  unfold half_year_spec, build_list_mtime. intros H1 H2.
+  destruct (now - half <? mtime) eqn:A; [|reflexivity].
+  destruct (mtime <=? now) eqn:B; [|reflexivity].
+  apply Z.ltb_lt in A. apply Z.leb_le in B. lia.
+Qed.
+
+(* ls_date_recent *)
+Theorem ls_date_recent half two off mtime now now' :
+  consts_ok half two = true ->
+  now <= now' <= now + HOUR ->
+  now - half_year_spec + DAY < mtime <= now ->
+  let tm := civil_of_epoch (mtime + off) in
+  1000 <= yr tm -> yr (client_now off now') <= 9999 ->
+  parse_ls_date_dt half two (build_list_mtime half off mtime now) (client_now off now')
+  = Some (minute_floor tm).
+Proof.
+  intros C Hn Hm tm HY HY'.
+  assert (C' := C). unfold consts_ok in C'. apply andb_true_iff in C' as [C' _].
+  apply andb_true_iff in C' as [C1 _]. apply Z.leb_le in C1.
+  rewrite (build_recent half off mtime now C1 Hm). fold tm.
+  destruct (epoch_of_civil_of_epoch (mtime + off)) as [Em Vm]. fold tm in Em, Vm.
+  unfold client_now in *. set (tn := civil_of_epoch (now' + off)) in *.
+  destruct (epoch_of_civil_of_epoch (now' + off)) as [En Vn]. fold tn in En, Vn.
+  unfold parse_ls_date_dt.
+  rewrite (recent_core half two tm tn Vm Vn C); [reflexivity| | |exact HY|exact HY'];
+    rewrite Em, En; unfold HOUR, DAY, half_year_spec in *; lia.
+Qed.
+
+(* ls_date_old_or_future: any client clock *)
+Theorem ls_date_old_or_future half two off mtime now (nowdt : dt) :
+  half <= half_year_spec ->
+  mtime <= now - half_year_spec \/ now < mtime ->
+  let tm := civil_of_epoch (mtime + off) in
+  1000 <= yr tm <= 9999 ->
+  parse_ls_date_dt half two (build_list_mtime half off mtime now) nowdt = Some (day_floor tm).
+Proof.
+  intros C Hm tm HY.
+  rewrite (build_old_or_future half off mtime now C Hm). fold tm.
+  destruct (epoch_of_civil_of_epoch (mtime + off)) as [_ Vm]. fold tm in Vm.
+  destruct (valid_dt_fields tm Vm) as (HM & HD & _).
+  pose proof (fmt_b_e_Y_no_colon tm HM) as NC.
+  unfold parse_ls_date_dt.
+  assert (T : parse_ls_date_try half two (fmt_b_e_Y tm) nowdt = None).
+  { unfold parse_ls_date_try. destruct (starts_with FEB29 (fmt_b_e_Y tm)).
+    - rewrite (strptime_needs_lit fmt2 COLON); [reflexivity|cbn; tauto|].
+      intro H. apply in_app_or in H as [H|H].
+      + apply str_of_Z_chars in H as [H|H]; [unfold COLON in H; lia|apply ascii_digit_range in H; unfold COLON in H; lia].
+      + apply in_app_or in H as [H|H]; [cbn in H; unfold COLON, SP in H; intuition lia|exact (NC H)].
+    - rewrite (strptime_needs_lit fmt1 COLON); [reflexivity|cbn; tauto|exact NC]. }
+  rewrite T. rewrite (strptime_fmt3 tm ltac:(lia) HM HD).
+  rewrite make_datetime_ok; [reflexivity|lia|exact (valid_dt_date tm Vm)].
+Qed.
